@@ -13,6 +13,7 @@ import (
 	"errors"
 	"fmt"
 	"hash/crc32"
+	"sync"
 
 	"github.com/tjfoc/gmsm/sm4"
 	"golang.org/x/crypto/blowfish"
@@ -137,6 +138,7 @@ func KeyLen(name string) int {
 // Crypto is the independent packet cipher: it turns a sealed datagram into the
 // bytes behind nonce+CRC (or nonce+tag) and back.
 type Crypto struct {
+	mu    sync.Mutex // some block ciphers (gmsm SM4) are not safe for concurrent use; the reference is serial
 	Name  string
 	block cipher.Block
 	aead  cipher.AEAD
@@ -211,6 +213,8 @@ func (c *Crypto) TagSize() int {
 // Stream applies the textbook whole-buffer transformation (CFB with the fixed
 // IV for block ciphers) in the given direction.
 func (c *Crypto) Stream(dst, src []byte, decrypt bool) {
+	c.mu.Lock()
+	defer c.mu.Unlock()
 	switch {
 	case c.block != nil:
 		iv := IV[:c.block.BlockSize()]
